@@ -22,3 +22,14 @@ package rsyncwire
 //@   modifies rsyncwire.CountingWriter.BytesWritten
 //@ func (*rsyncwire.Conn).WriteString
 //@   modifies rsyncwire.CountingWriter.BytesWritten
+
+// C17: a frame's payload never exceeds maxMessageSize, and Read is only
+// ever handed a buffer of at least that size (the caller obligation sits on
+// bufio.NewReaderSize in externals.spec, tag mux-buffer).
+//@ func (*rsyncwire.MultiplexReader).ReadMsg
+//@   modifies rsyncwire.CountingReader.BytesRead
+//@   ensures [frame-limit] err == nil ==> len(p) <= 262144
+
+//@ func (*rsyncwire.MultiplexReader).Read
+//@   requires [buffer] len(p) >= 262144
+//@   modifies contents(p), rsyncwire.CountingReader.BytesRead, rsyncos.Env.logger
